@@ -1,6 +1,7 @@
 import LyModel.XsdRe.SemLemmas
 import LyModel.XsdRe.MceLemmas
 import LyModel.XsdRe.SemMceLemmas
+import LyModel.XsdRe.SemSubLemmas
 import LyModel.XsdRe.MceSem
 import LyModel.XsdRe.RenderLemmas
 import LyModel.XsdRe.Lemmas
@@ -134,15 +135,24 @@ def InFragment (p : Pat) : Bool := p.Canon && p.inDialect .pcre && p.noNul && p.
     backslash -/
 theorem source_table_letters : ∀ e ∈ Generated.UBlocks.mceTable, e.1 ∈ mceLetters := by decide
 
+/-- the model of the source as it is now (with or without fixes/F181.diff, F182.diff, F183.diff) maps the canonical XSD text
+    of a fragment pattern to its canonical PCRE text -/
+theorem rewriteSrc_render (fx : Fixes) (p : Pat) (hwf : p.wf = true) (hd : p.inDialect .pcre = true) (hn : p.noNul = true)
+    (hb : p.noClsBrace = true) : rewriteSrc fx (utf8 (p.render .xsd)) = .ok (utf8 (p.render .pcre)) := by
+  unfold rewriteSrc
+  split
+  · exact rewriteS_render Generated.UBlocks.mceTable source_table_letters fx p hwf hd hn hb
+  · exact rewriteM_render Generated.UBlocks.mceTable source_table_letters fx p hwf hd hn hb
+
 /-- **The rewrite preserves the language.**  For every XSD regular expression `p` of the fragment, take its canonical text
     (which the XSD parser reads back to `p`): the model of `lys_compile_type_pattern_check` — in every state of the five
-    repairs, with the multi-character escape table of the source now (none, or the one of fixes/F182.diff / F183.diff) —
+    repairs, with the multi-character escape table and the subtraction code of the source now (`rewriteSrc`) —
     accepts it and produces a text `t` that (a) lies in the PCRE2 subset and (b) is accepted by PCRE2's semantics
     of that subset, under the compile options, match options and newline convention of the source, for exactly the strings
     of the XSD language `L p.toRegex`. -/
 theorem rewrite_preserves_language (fx : Fixes) (p : Pat) (hf : InFragment p = true) :
     parseXsd (utf8 (renderXsd p)) = .ok p ∧
-    ∃ t cs q, rewriteWithM Generated.UBlocks.mceTable fx (utf8 (renderXsd p)) = .ok t ∧ decodeUtf8 t = some cs ∧
+    ∃ t cs q, rewriteSrc fx (utf8 (renderXsd p)) = .ok t ∧ decodeUtf8 t = some cs ∧
       parseCharsD .pcre cs = .ok q ∧
       ∀ s, PcreAccepts Generated.UBlocks.compileOpts Generated.UBlocks.matchOpts Generated.UBlocks.newline q s ↔ L p.toRegex s := by
   simp only [InFragment, Bool.and_eq_true] at hf
@@ -150,7 +160,7 @@ theorem rewrite_preserves_language (fx : Fixes) (p : Pat) (hf : InFragment p = t
   have hwf : p.wf = true := by
     simp only [Pat.Canon, Bool.and_eq_true] at hc; exact hc.2
   refine ⟨?_, utf8 (p.render .pcre), p.render .pcre, p,
-    rewriteM_render Generated.UBlocks.mceTable source_table_letters fx p hwf hd hn hb, decodeUtf8_utf8 _,
+    rewriteSrc_render fx p hwf hd hn hb, decodeUtf8_utf8 _,
     parseCharsD_render .pcre p hc hd, fun s => ?_⟩
   · unfold parseXsd
     rw [decodeUtf8_utf8]
@@ -162,7 +172,7 @@ theorem rewrite_preserves_language (fx : Fixes) (p : Pat) (hf : InFragment p = t
 /-- … and so the derivative matcher on the PCRE reading of the rewritten text decides the XSD language (the executable
     form the check module runs) -/
 theorem rewrite_preserves_matches (fx : Fixes) (p : Pat) (hf : InFragment p = true) (s : List Char) :
-    ∃ t cs q, rewriteWithM Generated.UBlocks.mceTable fx (utf8 (renderXsd p)) = .ok t ∧ decodeUtf8 t = some cs ∧
+    ∃ t cs q, rewriteSrc fx (utf8 (renderXsd p)) = .ok t ∧ decodeUtf8 t = some cs ∧
       parseCharsD .pcre cs = .ok q ∧
       ((pcreRegex Generated.UBlocks.compileOpts Generated.UBlocks.newline q).matches s = true ↔ L p.toRegex s) := by
   obtain ⟨_, t, cs, q, h1, h2, h3, h4⟩ := rewrite_preserves_language fx p hf
@@ -258,6 +268,36 @@ theorem mce_escape_replaced_fixed (tbl : List (UInt8 × Bytes)) (fx : Fixes) (b 
 -- non-vacuity: a two-row table; `\s[\s^]$` ↦ `[ST][ST^]\$`
 example : escapeLoopM [(115, [83, 84])] Fixes.all 0 false [92, 115, 91, 92, 115, 94, 93, 36] =
     .ok [91, 83, 84, 93, 91, 83, 84, 94, 93, 92, 36] := by decide
+
+/-! ## fixes/F181.diff: class subtraction -/
+
+/-- **With the repair, a class expression with subtractions becomes nested fixed-length look-behinds in one non-capturing
+    group**: `[g₁-[g₂-[…gₙ]]]` ↦ `(?:[g₁](?<![g₂](?<!…[gₙ]…)))` (`subText`; a class without subtraction is copied) — for every
+    class of up to 63 levels (the `sub_mask` of the C code has 64 bits) whose members are characters, ranges, `\d \D`, `\p{Cat}`
+    `\P{Cat}`, in every state of the other repairs and with any escape table.  Read with PCRE2's documented semantics —
+    `[G](?<!X)` consumes a character of `G` and then requires that `X` does not match the character just consumed — this
+    is `g₁` minus (`g₂` minus (… `gₙ`)), the XSD meaning `CClass.mem`; look-behinds are outside the modelled subset, so
+    that reading is tied by the matching law of the check only. -/
+theorem subtraction_text_fixed (tbl : List (UInt8 × Bytes)) (htbl : ∀ e ∈ tbl, e.1 ∈ mceLetters) (fx : Fixes) (cc : CClass)
+    (hwf : cc.wf = true) (hd : ∀ g ∈ cc, ∀ i ∈ g.items, CItem.inDialect .pcre i = true) (hn : CClass.noNul cc = true)
+    (hb : ∀ g ∈ cc, ∀ i ∈ g.items, i.noBrace = true) (hlen : cc.length ≤ 63) :
+    rewriteWithS tbl fx (utf8 ('[' :: cc.render)) = .ok (utf8 (subText cc)) :=
+  subtraction_text tbl htbl fx cc hwf hd hn hb hlen
+
+-- non-vacuity: `[^a-[b-[c-e\d]]]` ↦ `(?:[^a](?<![b](?<![c-e\d])))`, and a quantifier behind it applies to the group
+example : subText [⟨true, [.ch 'a']⟩, ⟨false, [.ch 'b']⟩, ⟨false, [.range 'c' 'e', .esc false .dig]⟩] =
+    "(?:[^a](?<![b](?<![c-e\\d])))".toList := by decide +kernel
+example : rewriteWithS [] Fixes.all (utf8 "[a-c-[b]]+x".toList) = .ok (utf8 "(?:[a-c](?<![b]))+x".toList) := by decide +kernel
+
+/-- **Switch off = the loop before the repair**: on a text without a subtraction trigger (an unescaped `-` inside a class
+    directly followed by `[`) the repaired loop produces what `escapeLoopM` produces -/
+theorem subtraction_switch_off (tbl : List (UInt8 × Bytes)) (fx : Fixes) (b : Nat) (e : Bool) (s : Bytes)
+    (h : noSubTrig b e s = true) :
+    (escapeLoopS tbl fx { brack := b, escaped := e } s).map resolve = escapeLoopM tbl fx b e s :=
+  escapeLoopS_eq_escapeLoopM tbl fx b e s h
+
+-- non-vacuity: `[a\-[b]` has an ESCAPED dash: no trigger
+example : noSubTrig 0 false [91, 97, 92, 45, 91, 98, 93] = true := by decide
 
 /-- pass 1 has no other error than the stray bracket, with any table; so the whole rewrite neither crashes (F1 repaired) nor
     runs out of fuel -/
